@@ -598,7 +598,20 @@ class WelfordInvariant:
         c = ctx()
         n = x.length
         mean, var, M2, incarr = welford_spec(x)
-        m, v = env.vars["m"], env.vars["v"]
+        # the loop state by role, not by name: two one-element lists (running means starting at x[0], running M2 starting at 0)
+        lists = [k for k, val in env.vars.items() if isinstance(val, list) and len(val) == 1]
+        zero = [k for k in lists if isinstance(env.vars[k][0], (int, XR)) and not isinstance(env.vars[k][0], bool)
+                and (env.vars[k][0] == 0 if isinstance(env.vars[k][0], int) else (env.vars[k][0].is_const() and env.vars[k][0].v == 0))]
+        if len(lists) != 2 or len(zero) != 1:
+            raise NotApplicable("loop state of welford_mean_var not recognised (two one-element lists)")
+        nv = zero[0]
+        nm = [k for k in lists if k != nv][0]
+        m, v = env.vars[nm], env.vars[nv]
+        # the loop must run over the n-1 remaining observations; its variables are bound from the real iterable
+        it = I.eval(st.iter, env)
+        if not hasattr(it, "at") or not hasattr(it, "length"):
+            raise NotApplicable("iterable of the welford loop is not a symbolic sequence")
+        S.holds("welford loop runs once per remaining observation", icmp("==", it.length, isub(n, 1)))
         # (1) invariant holds on entry (i = 0): m = [x0], v = [0]
         S.holds("welford.inv.entry", band(len(m) == 1, len(v) == 1, xsame(xr(m[0]), mean(0)),
                                          xsame(xr(I.norm_scalar(v[0])), M2.at(1))))
@@ -610,11 +623,10 @@ class WelfordInvariant:
             ml = SymArr(mkint(i + 1), lambda k: mean(k), "xr")
             vl = SymArr(mkint(i + 1), lambda k: npx(M2.at(iadd(k, 1))), "xr")
             ml.is_list = vl.is_list = True
-            env.vars["m"], env.vars["v"] = ml, vl
-            env.vars["i"] = SInt(i)
-            env.vars["xi"] = x.at(i + 1)
+            env.vars[nm], env.vars[nv] = ml, vl
+            I.assign(st.target, it.at(i), env)
             I.exec_block(st.body, env, in_class)
-            m2, v2 = env.vars["m"], env.vars["v"]
+            m2, v2 = env.vars[nm], env.vars[nv]
             S.holds("welford.inv.preserved.len", band(icmp("==", m2.length, i + 2), icmp("==", v2.length, i + 2)))
             S.eq("welford.inv.preserved.m", m2.at(i + 1), mean(i + 1))
             S.eq("welford.inv.preserved.v", v2.at(i + 1), M2.at(i + 2))
@@ -626,7 +638,7 @@ class WelfordInvariant:
         ml = SymArr(n, lambda k: mean(k), "xr")
         vl = SymArr(n, lambda k: npx(M2.at(iadd(k, 1))), "xr")
         ml.is_list = vl.is_list = True
-        env.vars["m"], env.vars["v"] = ml, vl
+        env.vars[nm], env.vars[nv] = ml, vl
 
 
 @script(["C13", "C05", "C11", "C10"], "welford_mean_var/post")
@@ -636,7 +648,7 @@ def welford_post(S, I, variant):
     x = S.array("x", n, 0, u)
     fn = I.get(MOD, "welford_mean_var")
     if not isinstance(n, int):
-        I.invariants[("welford_mean_var", 0)] = WelfordInvariant(S, x)
+        I.invariants[("welford_mean_var", "for", 0)] = WelfordInvariant(S, x)
     from pyvc.interp import CutPath
     try:
         r, exc = run_guard(S, I, fn, [x], native={"kind": "module_function", "module": MOD,
